@@ -372,3 +372,46 @@ def reject_reversed_expansions(i, j, expr, clear, journal):
     if accepted != (d <= e):
         return 'reversed-period-accepted' if accepted else 'valid-period-rejected'
     return 'ok'
+
+
+# ---------------------------------------------------------------------------
+# the shell's default CLOSE date for named queries does not outlive the named query
+
+SHELL_LEDGER = ledger.LEDGER_TEXT + '''
+2019-01-12 query "noclose" "SELECT date, account, position FROM year = 2019"
+2019-01-12 query "reversed" "SELECT date, account FROM OPEN ON 2019-01-20"
+2019-01-12 query "broken" "SELECT nosuchcolumn FROM year = 2019"
+2019-01-12 query "garbled" "SELECT FROM WHERE"
+'''
+SHELL_FIRST = [None, '.run noclose', '.run reversed', '.run broken', '.run garbled', '.run *', '.run nosuchname']
+SHELL_TYPED = ['SELECT date, account, position FROM year = 2019',
+               'SELECT date, account, position FROM OPEN ON 2019-01-20 CLEAR',
+               'SELECT date, account, position FROM OPEN ON 2019-01-05 CLOSE',
+               'BALANCES FROM year = 2019',
+               'SELECT date, account, position']
+
+
+@cond('C13.shell.default-close', quick=180,
+      bounds=f'shell session on the fixture ledger with named queries (one valid, one whose default CLOSE date precedes its OPEN date, '
+             f'one that does not compile, one that does not parse): first command one of {SHELL_FIRST}, then one of '
+             f'{len(SHELL_TYPED)} typed statements with a FROM clause without CLOSE date: the typed statement prints what it prints '
+             'in a fresh session (the default CLOSE date of a named query applies to that query only)',
+      symbolic='(none)', enumerated='first command, typed statement', params={'i': int, 'j': int},
+      note='solver-enumerated and executed natively (the shell renders text)')
+def shell_default_close(i, j):
+    i = enum_int(i, 0, len(SHELL_FIRST) - 1)
+    j = enum_int(j, 0, len(SHELL_TYPED) - 1)
+
+    def run():
+        from .c19 import Capture, ledger_file
+        fresh = Capture(ledger_file(SHELL_LEDGER)).run(SHELL_TYPED[j])
+        cap = Capture(ledger_file(SHELL_LEDGER))
+        if SHELL_FIRST[i]:
+            cap.run(SHELL_FIRST[i])
+        later = cap.run(SHELL_TYPED[j])
+        if fresh[3] is not None or later[3] is not None:
+            return 'typed-statement-raises'
+        if not fresh[0].strip():
+            return 'harness-no-output'
+        return 'ok' if later[:3] == fresh[:3] else 'typed-statement-sees-the-period-of-an-earlier-named-query'
+    return native(run)
